@@ -106,6 +106,10 @@ Proof.
       * destruct (word_is_empty w); [exact I|].
         specialize (Hm Hw false e He). destruct (sem_word false w e); cbn in *; auto.
     + discriminate.
+  - intros raw _ dq e He. exact He.
+  - intros t Ht v Hc dq e He. cbn [core_tunit] in Hc. cbn [sem_tunit].
+    unfold top_or_empty. destruct (text_is_empty t); [exact He|].
+    specialize (Ht Hc false e He). destruct (sem_text false t e); cbn in *; auto.
   - intros _ dq e He. exact He.
   - intros u Hu t Ht Hc dq e He. cbn [core_text] in Hc. apply andb_true_iff in Hc as [H1 H2].
     cbn [sem_text]. specialize (Hu H1 dq e He). destruct (sem_tunit dq u e) as [a e1|k|]; cbn in *; auto.
@@ -119,6 +123,8 @@ Proof.
   - intros t Ht Hc dq e He. cbn [core_wunit] in Hc. cbn [sem_wunit].
     unfold top_or_empty. destruct (text_is_empty t); [exact He|].
     specialize (Ht Hc true e He). destruct (sem_text true t e); cbn in *; auto.
+  - intros s _ dq e He. exact He.
+  - intros home slash _ dq e He. exact He.
   - intros _ dq e He. exact He.
   - intros u Hu w Hw Hc dq e He. cbn [core_word] in Hc. apply andb_true_iff in Hc as [H1 H2].
     cbn [sem_word]. specialize (Hu H1 dq e He). destruct (sem_wunit dq u e) as [a e1|k|]; cbn in *; auto.
